@@ -1,5 +1,5 @@
 ENGINES = [
- {"name": "pyvc", "path": "/verif/pyvc", "serves_properties": ["C01", "C02", "C03", "C04", "C14", "C15", "C19"],
+ {"name": "pyvc", "path": "/verif/pyvc", "serves_properties": ["C01", "C02", "C03", "C04", "C10", "C14", "C15", "C19"],
   "kind_free_text": "own verification-condition generator: symbolic execution of the real function ASTs (re-read from /repo every run) against sidecar contracts (/verif/contracts), obligations discharged by z3 5.1 (cvc5 on unknown), validated finite-shape counter-models for refutation"},
  {"name": "bounded", "path": "/verif/bounded", "serves_properties": ["C%02d" % i for i in range(1, 21)],
   "kind_free_text": "bounded stand-ins: the property's contract evaluated at run time on the real code over enumerated small scopes (deal/icontract/plain wrappers), never counted as proved"},
@@ -43,7 +43,11 @@ CHECKS += [
   "note": "Assumes the file-system/pickle model of pyvc/lib_fs.py (atomic Path.replace, partial file until close), default Cache functions, temp name not a result name, distinct keys have distinct names. parallelise (pool, ordering) is bounded only.",
   "technique": "contract-based deductive verification (pyvc + z3) incl. crash invariant + bounded contract check"},
 ]
-for _p, _ref in [("C05","5/C05"),("C06","5/C06"),("C07","5/C07"),("C08","5/C08"),("C09","5/C09"),("C10","5/C10"),("C11","5/C11"),("C12","5/C12"),("C13","5/C13"),("C16","5/C16"),("C17","5/C17"),("C18","5/C18"),("C20","5/C20")]:
+CHECKS.append({"id": "C10", "category": "exploration", "design_ref": "5/C10",
+  "text": "Decided by the bounded stand-in (run-time contract on the real result views over enumerated multi-segment results against an independent evaluator). In addition _normalise_split_results is under a verified contract: for every list of segments and every factor argument, segment k is divided by the scalar, by the k-th factor (when there is one factor per segment), or by the slice of the factors that starts where the rows of segments 0..k-1 end and has one factor per row (loop invariant over an integer prefix fold); nothing else is modified.",
+  "note": "Level stays exploration: only the normalisation helper is proved (frames/vectors as abstract values, pyvc/lib_frame.py: which operands meet, not pandas arithmetic). Known findings (genuine defects not repaired) are listed in known_findings.jsonl with their witnesses.",
+  "technique": "bounded contract check on the real code (deciding) + contract-based deductive verification (pyvc + z3) of _normalise_split_results", "engine": "bounded"})
+for _p, _ref in [("C05","5/C05"),("C06","5/C06"),("C07","5/C07"),("C08","5/C08"),("C09","5/C09"),("C11","5/C11"),("C12","5/C12"),("C13","5/C13"),("C16","5/C16"),("C17","5/C17"),("C18","5/C18"),("C20","5/C20")]:
     CHECKS.append({"id": _p, "category": "exploration", "design_ref": _ref, "text": _BN, "note": "Run-time contract on the real code; oracle independent of the code under test (closed forms / recomputation from the property statement); tolerances, bounds and exclusions stated in the evidence and in proposed/" + _p + "/NOTES.md.", "technique": _B, "engine": "bounded"})
 CHECKS.sort(key=lambda c: c["id"])
 NOT_APPLICABLE = [{"property_id": f"C{i:02d}", "reason": _PENDING} for i in range(1, 21) if f"C{i:02d}" not in {c["id"] for c in CHECKS}]
